@@ -66,7 +66,7 @@ class Ctx:
         self.notes = []
         self.bounded_parts = []
         self.samples = []
-        self.timeout_s = 150 if tier == "quick" else 400
+        self.timeout_s = float(os.environ.get("VT_TIMEOUT_S") or (150 if tier == "quick" else 400))
         self.repo = os.environ.get("VERIF_REPO", REPO)
 
     def add_assumption(self, a):
@@ -457,7 +457,11 @@ def write_evidence(ctx, plan, wall, violations, unknowns, known_hits, proved):
         "checker_cmd": f"./check {ctx.pid} --tier {ctx.tier}",
         "trusted_base": ctx.trusted,
         "functions_under_contract": ctx.functions,
-        "obligation_list": [o.to_json() for o in ctx.obs][:600],
+        # capped at 600 entries: undischarged first, then the bounded clauses, then the discharged formal obligations
+        "obligation_list": [o.to_json() for o in sorted(ctx.obs, key=lambda o: (o.verdict in PROVED and o.generator != "G4",
+                                                                                 o.verdict in PROVED))][:600],
+        "obligation_list_total": len(ctx.obs),
+        "generators": sorted({o.generator for o in ctx.obs}),
         "by_backend": by_backend,
         "solver_s_total": round(sum(o.solver_s for o in ctx.obs), 2),
         "extraction_drops": extract.DROPS,
